@@ -133,12 +133,16 @@ def run(chk: Check) -> None:
     nb = 0
     ntot = 0
     opts_pool = [dict(o) for o in docports.OPTION_SETS] + [dict(width=w, plaintext=True) for w in (0, 10, 88)]
-    fixed = ["[^\nfn]: x\n", "a\n\n[^\nfn]: `` ` `` quick\n", "[^a\nb\nc]: x\n    y\n", "> [^\n> fn]: x\n"]     # inputs that once made the parser loop forever (fix 6756391)
+    fixed = ["[^\nfn]: x\n", "a\n\n[^\nfn]: `` ` `` quick\n", "[^a\nb\nc]: x\n    y\n", "> [^\n> fn]: x\n",     # inputs that once made the parser loop forever (fix 6756391)
+             "[^n]:\t&", "a[^n]\n\n[^n]:\tx y\n    more\n", "> [^n]:\t\tx\n", "- a\n\n  [^n]: \t x\n",                  # tab after the colon of a footnote definition (fix 409e762)
+             "a " + "`" * 1500 + "x b\n"]                                                                                 # long backtick run in a paragraph (fix 05d3e30)
     for i in range(1200 * n):
         doc = fixed[i] if i < len(fixed) else (gen_docs.gen_malformed(rng) if rng.random() < 0.7 else gen_docs.gen_doc(rng))
         if rng.random() < 0.03:
             doc = doc[:len(doc) // 2] + "\x00AC0\x00" + doc[len(doc) // 2:]
         o = dict(rng.choice(opts_pool))
+        if i < len(fixed):
+            doc, o = fixed[i], dict(width=88, semantic=bool(i % 2))
         out, dt, err = timed(reformat_text, doc, **o)
         ntot += 1
         chk.count()
